@@ -293,3 +293,124 @@ func init() {
 		return obs, fine
 	}
 }
+
+// ---------- calls issued while the transport's own Open / Close is stalled in the network (C13) ----------
+
+// stallingPeer: a scripted peer whose Open (or Close) blocks until released.
+type stallingPeer struct {
+	*scriptedPeer
+	openGate, closeGate chan struct{} // nil = do not stall
+	inOpen, inClose     chan struct{}
+}
+
+func (p *stallingPeer) Open() error {
+	if p.openGate != nil {
+		p.inOpen <- struct{}{}
+		<-p.openGate
+	}
+	return nil
+}
+func (p *stallingPeer) Close() error {
+	if p.closeGate != nil {
+		p.inClose <- struct{}{}
+		<-p.closeGate
+	}
+	return p.scriptedPeer.Close()
+}
+
+// runLifecycleStallCase: `phase` = openstall (first Open stalled), closestall (Close stalled),
+// reopenstall (Close done, second Open stalled). While it is stalled a Request (or Oneway) with the given
+// timeout is issued; the peer accepts writes and never answers.
+func runLifecycleStallCase(phase string, timeoutMs int, oneway bool) (string, bool, string) {
+	sp := &stallingPeer{scriptedPeer: newScriptedPeer(), inOpen: make(chan struct{}, 1), inClose: make(chan struct{}, 1)}
+	tr := frugal.NewAdapterTransport(sp)
+	timeout := time.Duration(timeoutMs) * time.Millisecond
+	release := func() {}
+	switch phase {
+	case "openstall":
+		gate := make(chan struct{})
+		sp.openGate = gate
+		go tr.Open()
+		<-sp.inOpen
+		release = func() { close(gate) }
+	case "closestall":
+		if err := tr.Open(); err != nil {
+			return "open-failed", false, err.Error()
+		}
+		gate := make(chan struct{})
+		sp.closeGate = gate
+		go tr.Close()
+		<-sp.inClose
+		release = func() { close(gate) }
+	case "reopenstall":
+		if err := tr.Open(); err != nil {
+			return "open-failed", false, err.Error()
+		}
+		tr.Close()
+		sp.scriptedPeer = newScriptedPeer()
+		gate := make(chan struct{})
+		sp.openGate = gate
+		go tr.Open()
+		<-sp.inOpen
+		release = func() { close(gate) }
+	default:
+		return "bad-op", true, ""
+	}
+	defer func() { release(); time.Sleep(time.Millisecond); tr.Close() }()
+	ctx := frugal.NewFContext("")
+	ctx.SetTimeout(timeout)
+	start := time.Now()
+	done := make(chan error, 1)
+	go func() {
+		if oneway {
+			done <- tr.Oneway(ctx, []byte{0, 0, 0, 1, 0})
+		} else {
+			_, err := tr.Request(ctx, []byte{0, 0, 0, 1, 0})
+			done <- err
+		}
+	}()
+	var err error
+	select {
+	case err = <-done:
+	case <-time.After(timeout*3 + 2*time.Second):
+		return "outcome=hung", false, fmt.Sprintf("a call with FContext timeout %v issued while the transport's %s was stalled in the network had not returned after 3x its timeout + 2 s", timeout, phase[:len(phase)-5])
+	}
+	elapsed := time.Since(start)
+	outcome := "ok"
+	if te, ok := err.(thrift.TTransportException); ok && te.TypeId() == frugal.TRANSPORT_EXCEPTION_TIMED_OUT {
+		outcome = "timedOut"
+	} else if err != nil {
+		outcome = "err:" + errClass(err)
+	}
+	why := ""
+	if elapsed > timeout+allowance {
+		why = fmt.Sprintf("call returned after %v with timeout %v (allowance %v) while %s", elapsed.Round(time.Millisecond), timeout, allowance, phase)
+	}
+	return "outcome=" + outcome, why == "", why
+}
+
+func init() {
+	suites["c13life"] = func(r *Rng, n int) {
+		for i := 0; i < n; i++ {
+			phase := []string{"openstall", "closestall", "reopenstall"}[r.Intn(3)]
+			to := 20 + r.Intn(120)
+			ow := r.Intn(2)
+			obs, fine, why := retryTiming(func() (string, bool, string) { return runLifecycleStallCase(phase, to, ow == 1) })
+			line := fmt.Sprintf("rql %s %d %d", phase, to, ow)
+			Case(line, obs)
+			Stat("phase:" + phase)
+			if !fine {
+				OracleFail(why, map[string]interface{}{"op": "rql", "line": line, "got": obs})
+			}
+			Stat("evaluations")
+		}
+	}
+	lineOps["rql"] = func(a []string) (string, bool) {
+		if len(a) != 3 {
+			return "bad-op", true
+		}
+		to, _ := strconv.Atoi(a[1])
+		obs, fine, _ := runLifecycleStallCase(a[0], to, a[2] == "1")
+		return obs, fine
+	}
+}
